@@ -718,12 +718,12 @@ def judge_dpl(rr, cases):
         rw = r.split()
         if rw[0] != '1':
             v.update(status='violation', why='property clause fails on the implementation output (%s): %s' % ('closed ring, 2*tol' if c['ringvar'] else 'line, tol', r))
+        elif not tie and out != mout:
+            v.update(status='corr', why='model M and DouglasPeuckerLineSimplifier disagree on a tie-free input')
         elif c['tol'] == 0 and out != c['pts']:
             # zero tolerance did not return the input unchanged.  the relational clause above (T2 = 0, exact) has shown that every
             # dropped vertex is at distance 0 from the output line: this is exactly the key of finding F6
             v.update(status='known', fid='F6', why='tolerance 0 dropped vertices that lie ON the simplified line (collinear / repeated)')
-        elif not tie and out != mout:
-            v.update(status='corr', why='model M and DouglasPeuckerLineSimplifier disagree on a tie-free input')
         res.append(v)
     return res
 
@@ -947,12 +947,13 @@ def judge_simpl(rr, cases):
                     v.update(status='violation', why='input vertices farther than the tolerance (2*tol for rings) from the simplified geometry: %s %s' % (g['nearL'][:120], g['nearR'][:120]))
             elif all(k == 'L' for k, b in cin) and not geom_ok:
                 v.update(status='violation', why='line simplification: subsequence / end points / tolerance clause fails')
-            elif c['tol'] == 0 and cin != cout and v['class'] == 'plain':
-                v.update(status='known', fid='F6', why='tolerance 0 dropped vertices that lie ON the simplified line (collinear / repeated)')
             elif v.get('nonint') and not c.get('tie'):
                 v.update(status='corr', why='the model predicts a valid rough result (returned as is), the implementation returned non-integer coordinates')
             elif exact and units_ok and pred != cout:
                 v.update(status='corr', why='model M (ring by ring, degenerate rings dropped) and GEOSSimplify_r disagree on a tie-free input whose rough result is valid')
+            elif c['tol'] == 0 and cin != cout and v['class'] == 'plain':
+                v.update(status='known', fid='F6', why='tolerance 0 dropped vertices that lie ON the simplified line (collinear / repeated)')
+                v['model_equal'] = bool(exact and units_ok)
             elif exact and units_ok:
                 v['model_equal'] = True
         res.append(v)
@@ -1293,7 +1294,7 @@ def stream_derived(ctx, rr, n):
         label, g, _h = gen_geometry(rng, ctx.quick)
         ext = max([abs(v) for p in all_pts(flatten(g)) for v in p] + [4])
         if rng.random() < 0.6:
-            base.append(('DENS', rng.choice([1, 2, 0.5, max(1, ext // 8), 3.7]), g, label))
+            base.append(('DENS', rng.choice([ext / 3, ext / 6, ext / 12, max(1, ext // 8), ext / 7.3]), g, label))
         else:
             base.append(('RRP', rng.choice([0, 0, 1, 2]), g, label))
     outs = [parse_impl(o) for o in rr.impl(['%s %s %s' % (op, num(t), hexwkb(g)) for op, t, g, _ in base])]
@@ -1302,7 +1303,7 @@ def stream_derived(ctx, rr, n):
         if 'geom' not in o or o.get('v') != '1':
             continue
         comps = flatten(o['geom'])
-        if not comps:
+        if not comps or len(all_pts(comps)) > 250:
             continue
         tol = rng.choice([0, 0, 1e-9, 0.5, 1, 2])
         cases.append(dict(label='%s(%s)' % (op.lower(), label.split(':')[0]), op=rng.choice(['DP', 'TP']), tol=tol, geom=o['geom']))
@@ -1349,7 +1350,25 @@ def run(ctx):
         'correspondence is sampled (generator quality bounds it)']
     ok_build = ctx.build_repo('rel')
     ok_coq, ax = ctx.coq_build('Properties_C18')
+    if not ok_coq:
+        # vlib/core.py parses the header line "Axioms:" of Print Assumptions as an axiom called 'Axioms' (only visible for theorems
+        # that do depend on axioms).  Redo the whitelist test without that pseudo entry; everything else is left as the framework does it.
+        from vlib.core import AXIOM_WHITELIST, AXIOM_PREFIX_WHITELIST
+        real = set(a for a in ax if a != 'Axioms')
+        bad = [a for a in real if not (a in AXIOM_WHITELIST or a.startswith(AXIOM_PREFIX_WHITELIST))]
+        for b in list(ctx.broken):
+            if b['kind'] == 'proof' and b['name'] == 'Print Assumptions' and 'Axioms' in ax and not bad:
+                ctx.broken.remove(b)
+                ctx.cov['trusted_base'] = sorted(set(ctx.cov['trusted_base']) - {'Axioms'})
+                g = ctx.hygiene()
+                if g:
+                    ctx.broken.append(dict(kind='proof', name='hygiene gate', detail=g))
+                else:
+                    ok_coq = True
+                    ctx.log('coq ok; axioms: %s' % sorted(real))
+    ctx.log('proofs %s' % ('ok' if ok_coq else 'BROKEN'))
     drv = ctx.ocaml_driver('C18')
+    ctx.log('driver built')
     hexe = os.path.join(BUILD, 'bin', 'c18')
     if not ok_build or not ctx.cxx(os.path.join(ROOT, 'harness/c18.cpp'), hexe, 'rel'):
         return
@@ -1357,13 +1376,15 @@ def run(ctx):
         return
     rr = R(ctx, drv, hexe)
     q = ctx.quick
-    stream_dpl(ctx, rr, 1500 if q else 20000)
-    stream_simpl(ctx, rr, 700 if q else 8000, 'dp', ['DP'])
-    stream_simpl(ctx, rr, 700 if q else 8000, 'tp', ['TP'])
-    stream_simpl(ctx, rr, 400 if q else 5000, 'dbl', ['DP', 'TP'], doubles=True)
-    stream_derived(ctx, rr, 200 if q else 2500)
-    stream_hull(ctx, rr, 400 if q else 5000)
-    stream_cov(ctx, rr, 300 if q else 4000)
+    for name, f in [('dpl', lambda: stream_dpl(ctx, rr, 4000 if q else 30000)),
+                    ('dp', lambda: stream_simpl(ctx, rr, 2000 if q else 12000, 'dp', ['DP'])),
+                    ('tp', lambda: stream_simpl(ctx, rr, 2000 if q else 12000, 'tp', ['TP'])),
+                    ('dbl', lambda: stream_simpl(ctx, rr, 800 if q else 5000, 'dbl', ['DP', 'TP'], doubles=True)),
+                    ('derived', lambda: stream_derived(ctx, rr, 200 if q else 1500)),
+                    ('hull', lambda: stream_hull(ctx, rr, 1500 if q else 10000)),
+                    ('cov', lambda: stream_cov(ctx, rr, 800 if q else 6000))]:
+        f()
+        ctx.log('stream %s done: %d evaluations so far, %d violations' % (name, ctx.cov['evaluations'], len(ctx.violations)))
     ctx.cov['traces_validated_against_impl'] = ctx.cov['evaluations']
     # self-check of the generators against the case splits of the proofs
     dist = ctx.notes.get('distribution', {})
